@@ -28,6 +28,9 @@
 #include <sys/socket.h>
 #include <sys/syscall.h>
 #include <sys/stat.h>
+#include <sys/wait.h>
+#include <poll.h>
+#include <semaphore.h>
 #include <netinet/in.h>
 #include <arpa/inet.h>
 #include <stddef.h>
@@ -43,7 +46,7 @@ int clock_gettime(clockid_t id, struct timespec* ts) {
 }
 
 /* ------------------------------------------------------------------ tables */
-enum { K_TIMER, K_IDLE, K_PREPARE, K_CHECK, K_ASYNC, K_POLL, K_TCP, K_UDP, K_PIPE, K_SIGNAL, K_FSEVENT, K_NKINDS };
+enum { K_TIMER, K_IDLE, K_PREPARE, K_CHECK, K_ASYNC, K_POLL, K_TCP, K_UDP, K_PIPE, K_SIGNAL, K_FSEVENT, K_NKINDS, K_PROCESS };   /* processes are created by `spawn`, not `init` */
 static const char* kind_names[] = { "timer", "idle", "prepare", "check", "async", "poll", "tcp", "udp", "pipe", "signal", "fs_event" };
 enum { H_NONE, H_LIVE, H_DEAD };
 
@@ -56,6 +59,7 @@ typedef struct {
   int fd_a, fd_b;     /* poll: socketpair (a is watched) */
   int bound;          /* tcp/pipe/udp: socket exists */
   int conn_pending;   /* pipe: a connect request is outstanding */
+  int pid, reaped;    /* process */
   int dupfd;          /* tcp/udp/pipe: a dup of the socket kept open by the application (the open file outlives uv_close) */
   char path[400];     /* pipe */
 } hent;
@@ -145,6 +149,29 @@ static void obs(void) {
   printf("\n");
 }
 
+/* ------------------------------------------------------------------ allocator with a fault schedule */
+static pthread_t main_thr;
+static int fail_alloc_in;    /* the n-th allocation made by the loop thread from now on fails (1 = the next one) */
+static int alloc_hit(void) { return fail_alloc_in && pthread_equal(pthread_self(), main_thr) && --fail_alloc_in == 0; }
+static void* h_malloc(size_t n) { return alloc_hit() ? NULL : malloc(n); }
+static void* h_calloc(size_t a, size_t b) { return alloc_hit() ? NULL : calloc(a, b); }
+static void* h_realloc(void* p, size_t n) { return alloc_hit() ? NULL : realloc(p, n); }
+
+/* ------------------------------------------------------------------ a second thread inside uv_async_send */
+static __thread int tls_park;     /* this thread is to be held right after its wake-up write */
+static sem_t parked_sem;
+static pthread_t helpers[64]; static int nhelpers;
+ssize_t write(int fd, const void* buf, size_t n) {
+  ssize_t r = syscall(SYS_write, fd, buf, n);
+  if (tls_park) { int e = errno; tls_park = 0; sem_post(&parked_sem); usleep(40000); errno = e; }   /* still inside uv_async_send */
+  return r;
+}
+static void* helper_send(void* arg) { tls_park = 1; uv_async_send((uv_async_t*) arg); tls_park = 0; return NULL; }
+static void join_helpers(void) { for (int i = 0; i < nhelpers; i++) pthread_join(helpers[i], NULL); nhelpers = 0; }
+
+/* children that have been spawned and not yet reported: make their exit visible before the poller looks */
+static void await_children(void);
+
 /* ------------------------------------------------------------------ epoll wrapper */
 static int owner_key(int fd, char* name) {
   if (fd == LP->async_io_watcher.fd) { strcpy(name, "async"); return 0; }
@@ -165,6 +192,7 @@ int epoll_pwait(int epfd, struct epoll_event* ev, int maxev, int timeout, const 
   (void) ss;
   if (!in_run) return (int) syscall(SYS_epoll_pwait, epfd, ev, maxev, 0, NULL, 8);   /* the throw-away loop */
   int done = complete_works();
+  await_children();
   unsigned long long it = iter_no();
   long k = npolls++;
   for (int i = 0; i < neintr; i++) if (eintr[i].k == k) {
@@ -273,6 +301,17 @@ static void generic_cb(const char* kind, int i, const char* args) {
   in_cb++; run_script('h', i, occ, g); in_cb--;
   printf("endcb\n"); obs();
 }
+static void exit_cb(uv_process_t* p, int64_t status, int sig) {
+  int i = idof(p); char a[60]; sprintf(a, " %lld %d", (long long) status, sig); H[i].reaped = 1; generic_cb("exit", i, a);
+}
+static void await_children(void) {
+  int waited = 0;
+  for (int i = 0; i < nh; i++) if (H[i].state == H_LIVE && H[i].kind == K_PROCESS && !H[i].reaped && H[i].pid > 0) {
+    siginfo_t si; memset(&si, 0, sizeof si);
+    if (waitid(P_PID, H[i].pid, &si, WEXITED | WNOWAIT) == 0) waited = 1;
+  }
+  if (waited) { struct pollfd pf = { LP->signal_pipefd[0], POLLIN, 0 }; poll(&pf, 1, 2000); }   /* SIGCHLD has been turned into a message */
+}
 static void timer_cb(uv_timer_t* h) { generic_cb("timer", idof(h), ""); }
 static void idle_cb(uv_idle_t* h) { generic_cb("idle", idof(h), ""); }
 static void prepare_cb(uv_prepare_t* h) { generic_cb("prepare", idof(h), ""); }
@@ -311,6 +350,7 @@ static void close_cb(uv_handle_t* h) {
   int reg = -2;   /* kernel interest set of the loop: the handle's open file must be gone by close_cb */
   if (H[i].kind == K_POLL) { reg = epoll_has_ino(ino_of(H[i].fd_a)); close(H[i].fd_a); close(H[i].fd_b); }
   else if (H[i].dupfd > 0) { reg = epoll_has_ino(ino_of(H[i].dupfd)); close(H[i].dupfd); H[i].dupfd = 0; }
+  if (H[i].kind == K_PIPE && H[i].fd_b >= 0) { close(H[i].fd_b); H[i].fd_b = -1; }
   H[i].ptr = NULL;
   free(h);
   printf("endcb\n"); obs();
@@ -442,6 +482,61 @@ static void exec_op(char* text0) {
     int before = (int) ncb_total; uv_close(H[i].ptr, close_cb);
     if ((int) ncb_total != before) printf("REENTRANT-CALLBACK in uv_close h%d\n", i);
     RET(0);
+  }
+  if (!strcmp(o, "async_send_thread") && nw == 2 && live(i) && H[i].kind == K_ASYNC && !uv_is_closing(H[i].ptr) && nhelpers < 64) {
+    /* uv_async_send from another thread, held inside the call right after its wake-up write (for ~40 ms of real time) */
+    if (pthread_create(&helpers[nhelpers], NULL, helper_send, H[i].ptr)) exit(4);
+    nhelpers++;
+    struct timespec ts; syscall(SYS_clock_gettime, CLOCK_REALTIME, &ts); ts.tv_sec += 2; sem_timedwait(&parked_sem, &ts);
+    RET(0);
+  }
+  if (!strcmp(o, "spawn") && nw == 2 && nh < MAXH) {
+    hent* e = &H[nh]; memset(e, 0, sizeof *e); e->kind = K_PROCESS; e->fd_a = e->fd_b = -1;
+    uv_process_t* p = malloc(sizeof *p); e->ptr = (uv_handle_t*) p;
+    char cmd[40]; snprintf(cmd, sizeof cmd, "exit %d", atoi(w[1]) & 255);
+    char* args[] = { "/bin/sh", "-c", cmd, NULL };
+    uv_process_options_t opt; memset(&opt, 0, sizeof opt); opt.file = "/bin/sh"; opt.args = args; opt.exit_cb = exit_cb;
+    e->state = H_LIVE; nh++;       /* the handle is initialised (and must be closed) whatever uv_spawn returns */
+    int r = uv_spawn(LP, p, &opt);
+    if (r != 0) { fprintf(stderr, "spawn failed %d\n", r); exit(4); }
+    e->pid = p->pid;
+    RET(r);
+  }
+  if (!strcmp(o, "open") && nw == 2 && live(i) && H[i].kind == K_PIPE && !uv_is_closing(H[i].ptr) && !H[i].bound && !H[i].conn_pending) {
+    /* a connected stream: the pipe handle adopts one end of a socketpair */
+    int sv[2]; if (socketpair(AF_UNIX, SOCK_STREAM | SOCK_CLOEXEC | SOCK_NONBLOCK, 0, sv)) exit(4);
+    int r = uv_pipe_open((uv_pipe_t*) H[i].ptr, sv[0]);
+    if (r != 0) { close(sv[0]); close(sv[1]); RET(r); }
+    H[i].fd_b = sv[1]; H[i].bound = 2; keep_dup(i);
+    RET(0);
+  }
+  if (!strcmp(o, "fail") && (nw == 2 || nw == 3)) {
+    /* a request-submitting call that fails synchronously (allocation failure injected through the allocator, or refusal):
+     * it must leave the loop's request accounting untouched */
+    static char byte = 'z'; uv_buf_t b5[5]; for (int j = 0; j < 5; j++) b5[j] = uv_buf_init(&byte, 1);
+    int r = 0; const char* what = w[1];
+    if (!strcmp(what, "getaddrinfo") && nw == 2) {
+      uv_getaddrinfo_t* req = malloc(sizeof *req); fail_alloc_in = 1; r = uv_getaddrinfo(LP, req, gai_cb, "localhost", NULL, NULL); fail_alloc_in = 0;
+      if (r == 0) { fprintf(stderr, "fail getaddrinfo: submitted\n"); exit(4); } free(req);
+    } else if (!strcmp(what, "fs_stat") && nw == 2) {
+      uv_fs_t* req = malloc(sizeof *req); fail_alloc_in = 1; r = uv_fs_stat(LP, req, "/", (uv_fs_cb) gai_cb); fail_alloc_in = 0;
+      if (r == 0) { fprintf(stderr, "fail fs_stat: submitted\n"); exit(4); } free(req);
+    } else if (nw == 3 && live(i = hnum(w[2])) && !uv_is_closing(H[i].ptr)) {
+      if (!strcmp(what, "udp_send") && H[i].kind == K_UDP) {
+        uv_udp_send_t* req = malloc(sizeof *req); fail_alloc_in = 1;
+        r = uv_udp_send(req, (uv_udp_t*) H[i].ptr, b5, 5, (struct sockaddr*) &sink_addr, send_cb); fail_alloc_in = 0;
+        if (r == 0) { fprintf(stderr, "fail udp_send: submitted\n"); exit(4); } free(req);
+        { int fd = -1; if (uv_fileno(H[i].ptr, &fd) == 0 && fd >= 0 && !H[i].bound) { H[i].bound = 1; keep_dup(i); } }   /* the deferred bind happened */
+      } else if (!strcmp(what, "write") && H[i].kind == K_PIPE) {   /* EBADF on an unopened pipe, ENOMEM (5 buffers) on an open one */
+        uv_write_t* req = malloc(sizeof *req); fail_alloc_in = 1;
+        r = uv_write(req, (uv_stream_t*) H[i].ptr, b5, 5, (uv_write_cb) send_cb); fail_alloc_in = 0;
+        if (r == 0) { fprintf(stderr, "fail write: submitted\n"); exit(4); } free(req);
+      } else if (!strcmp(what, "shutdown") && (H[i].kind == K_PIPE || H[i].kind == K_TCP) && H[i].bound != 2) {   /* not connected */
+        uv_shutdown_t* req = malloc(sizeof *req); r = uv_shutdown(req, (uv_stream_t*) H[i].ptr, (uv_shutdown_cb) send_cb);
+        if (r == 0) { fprintf(stderr, "fail shutdown: submitted\n"); exit(4); } free(req);
+      } else BAD;
+    } else BAD;
+    RET(r);
   }
   if (!strcmp(o, "async_send") && nw == 2 && live(i) && H[i].kind == K_ASYNC && !uv_is_closing(H[i].ptr)) RET(uv_async_send((uv_async_t*) H[i].ptr));
   if (!strcmp(o, "bind") && nw == 2 && live(i) && H[i].kind == K_UDP && !uv_is_closing(H[i].ptr) && !H[i].bound) {
@@ -611,6 +706,8 @@ static void exec_op(char* text0) {
 
 int main(int argc, char** argv) {
   static char line[16384];
+  main_thr = pthread_self(); sem_init(&parked_sem, 0, 0);
+  uv_replace_allocator(h_malloc, h_realloc, h_calloc, free);
   setenv("UV_THREADPOOL_SIZE", "1", 1);
   setvbuf(stdout, NULL, _IOLBF, 1 << 16);   /* line buffered: a sanitizer abort must not lose the log */
   if (argc > 1) snprintf(scratch, sizeof scratch, "%s", argv[1]);
@@ -666,6 +763,7 @@ int main(int argc, char** argv) {
     printf("bad-line %s\n", line);
   }
   fflush(stdout);
+  join_helpers();     /* a parked sender finishes its uv_async_send before the process ends (ASan sees a late touch) */
   for (int i = 0; i < ns; i++) free(S[i].ops);
   for (int i = 0; i < nr; i++) if ((R[i].kind == 3 || R[i].kind == 4) && R[i].ptr) { free(R[i].ptr); R[i].ptr = NULL; }
   close(sink_fd);
